@@ -145,6 +145,18 @@ def B(name, fn, args, post, pre=None, witnesses=(), native=None, bound="every op
                 witnesses=list(witnesses), native=native, funcs=funcs, bound=bound, **kw)
 
 
+def add_lsd(radix):
+    return dict(engine="B", name=f"c06_add_lsd_radix{radix}", crates=["texlang"], fn=("texlang", "add_lsd", None, None),
+                args=[("n", "i32"), ("lsd", "i32")], const_generics={"RADIX": radix},
+                pre=lambda a: tm.and_(tm.le(I(0), a["n"]), tm.le(I(0), a["lsd"]), tm.lt(a["lsd"], I(radix))),
+                post=lambda a, ret: option_is(ret, tm.le(tm.add(tm.mul(a["n"], I(radix)), a["lsd"]), I(I32_MAX)),
+                                              lambda p: tm.eq(p, tm.add(tm.mul(a["n"], I(radix)), a["lsd"]))),
+                witnesses=[("largest representable", lambda a: tm.eq(tm.add(tm.mul(a["n"], I(radix)), a["lsd"]), I(I32_MAX))),
+                           ("first too big", lambda a: tm.eq(tm.add(tm.mul(a["n"], I(radix)), a["lsd"]), I(I32_MAX + 1)))],
+                funcs=[f"texlang::parse::integer::add_lsd::<{radix}> (private; generic MIR with RADIX bound)"],
+                bound=f"every accumulated value n in [0, 2^31) and digit in [0, {radix}): n*{radix}+d, 'number too big' exactly above 2^31-1 (TeX.2021.445)")
+
+
 A_FEAT = ["p_common"]
 
 
@@ -164,7 +176,8 @@ PROP = {
     "outside": [
         "token-level scanning (parse_integer / scan_dimen over VM token streams): the kernels they call are decided here, the token loop is not",
         "texlang_stdlib::math::*Op::apply are generic forwarding wrappers (N::checked_mul etc.) and are not re-encoded; their targets are",
-        "Scaled::parse_from_string / parse_no_units (String API)",
+        "Scaled::parse_from_string / parse_no_units (String API): the print/scan harnesses split the printed text themselves and call from_decimal_digits and Scaled::new",
+        "printing of glue (Display for Glue: ' plus ' / ' minus ' and the fil units) and \\the through the VM",
         "operands outside the stated preconditions are the subject of C09 (panic freedom), not of this property",
     ],
     "assumptions": [
@@ -234,6 +247,10 @@ PROP = {
           witnesses=[("shrink overflows only", lambda a: tm.and_(tm.eq(a["n"], I(4)), tm.eq(glue_fields(a["g"])[3], I(1 << 28)), tm.eq(glue_fields(a["g"])[0], I(1))))],
           native={"fn": "Glue::checked_mul", "args": ["g.width.0", "g.stretch.0", "g.stretch_order", "g.shrink.0", "g.shrink_order", "n"]},
           smt_timeout=180, bound="every glue (amounts in (-2^31, 2^31)) and every n in (-2^31, 2^31): TeX.2021.1240"),
+        add_lsd(8), add_lsd(10), add_lsd(16),
+        A("c06_print_scan_every_fraction", "every fraction 0..65535 sp with either sign (integer part 0): 1..5 digits, scans back exactly"),
+        A("c06_print_scan_every_integer_part", "every integer part 0..16383 with either sign and fraction in {0, 1, 32768, 65535} sp (the fraction digits depend on the fractional part only, the integer digits on the integer part only)"),
+        A("c06_print_scan_every_value", "every scaled value |s| <= 2^30-1 in one query", tier="thorough", timeout=3000),
         B("c06_glue_checked_div", (None, "checked_div", "Glue", None), [("g", "Glue"), ("n", "i32")], post_glue_checked_div,
           pre=lambda a: tm.and_(*[tm.gt(glue_fields(a["g"])[k], I(I32_MIN)) for k in (0, 1, 3)]),
           witnesses=[("by zero", lambda a: tm.eq(a["n"], I(0))), ("negative divisor", lambda a: tm.and_(tm.eq(a["n"], I(-2)), tm.eq(glue_fields(a["g"])[1], I(-5))))],
